@@ -1,5 +1,5 @@
 #!/usr/bin/env bash
-# Runs every quick check against every seeded change (scratch worktrees; /repo untouched)
+# Runs the quick checks (C05 and C18 only against changes written for them) against every seeded change (scratch worktrees; /repo untouched)
 # and writes /verif/seeded/MATRIX.txt. Usage: ./matrix.sh [glob]
 cd "$(dirname "$0")"
 out=seeded/MATRIX.txt
@@ -7,7 +7,14 @@ pat="${1:-seeded/C*}"
 for d in $pat; do
   [ -f "$d/patch.diff" ] || continue
   line="$(basename "$d"):"
-  res="$(./eval_seeded.sh "$d" checks 2>&1 | grep -E '^C[0-9]+: ')"
+  label="$(basename "$d" | cut -d- -f1)"
+  props=""
+  for p in C01 C02 C03 C04 C05 C06 C07 C11 C12 C13 C15 C17 C18 C20; do
+    # the two slowest checks only for changes written against them
+    if { [ "$p" = C05 ] || [ "$p" = C18 ]; } && [ "$p" != "$label" ]; then continue; fi
+    props="$props $p"
+  done
+  res="$(./eval_seeded.sh "$d" checks $props 2>&1 | grep -E '^C[0-9]+: ')"
   for p in C01 C02 C03 C04 C05 C06 C07 C11 C12 C13 C15 C17 C18 C20; do
     r="$(echo "$res" | grep "^$p: " | head -1)"
     case "$r" in *CAUGHT*) line="$line $p" ;; *TROUBLE*) line="$line $p(TROUBLE)" ;; esac
